@@ -19,9 +19,12 @@ LEVEL = {
  "C12": ("model_checking", "Tighten/RowBounds/NComb are transcribed with explicit floor arithmetic and checked by TLC against enumeration on the universe; recorded tighten_column_bounds/row_bounds/column_bounds/n_row_combinations (queried twice on the same object in rotated order) are validated by enumeration."),
  "C19": ("model_checking", "spec functions Sat/Sep/RowSep for 1-D, 2-D, 3-D point arrays; recorded ineqs_satisfied/separable/ineq_separate_points must equal them (matrices from the PuanPoly universe and random ones, points inside and outside the declared bounds)."),
  "C20": ("model_checking", "PuanBridge enumerates variable lists x dictionaries x lists and states what construct / index partition / from_list / to_list mean; recorded results (int, float and callable defaults, non-string and unicode ids, nested lists) must equal the spec functions."),
+ "C13": ("model_checking", "PuanPrio enumerates priority arrays and TLC checks that the shadow algorithm satisfies the dominance relation, that prio is a dense ranking of levels and that shadow weights rank all 0/1 selections lexicographically; recorded ndint_compress results (7 methods; 2-D on both axes, flattened, batched 3-D) are validated against the relation (shadow: any weights with the stated features are accepted) or the exact function."),
+ "C14": ("model_checking", "for configurators enumerated by the builder machine (defaulted/plain Any/Xor rules) TLC checks on the specification that the shadow-compressed [defaults; user priorities] objective ranks all feasible points lexicographically; the objective vectors and polyhedron a capturing solver RECEIVED from select() are validated: all-pairs ranking on the recorded polyhedron, and equality of leaf-projected optimal sets with the specified configurator (structure, default priorities and objective computed by the spec from the recipe)."),
+ "C15": ("model_checking", "solve()/select() are driven with harness solvers (capture, brute-force exact, None, mixed, raising); TLC validates what the solver received (own polyhedron, weight at each column = weight given for that column's id / lexicographic ranking) and what was reported back (id alignment, generated-id and leaf filters, None -> {}, InfeasibleError) and re-checks the exact solver's answers for optimality and model truth."),
 }
 NOTE = "trusted: TLC/SANY + CommunityModules Json; harness/proj.py (projection of public attributes) and harness/tlaval.py; exhaustive only inside the universes listed in the evidence (spec_runs); random batch is seeded by VERIF_SEED"
-TECH = "explicit TLA+ spec (PuanModel/PuanCtor/PuanBuild/PuanPoly/PuanBridge) model-checked by TLC + TLC trace validation (PuanTrace) of recorded implementation events"
+TECH = "explicit TLA+ spec (PuanModel/PuanCtor/PuanBuild/PuanPoly/PuanBridge/PuanPrio) model-checked by TLC + TLC trace validation (PuanTrace) of recorded implementation events"
 ALL = ["C%02d" % i for i in range(1, 21)]
 checks, na = [], []
 for p in ALL:
